@@ -2,7 +2,7 @@ import CrabModel.Dom.Functors.FlatBoolBase
 
 /-
   Model of `flat_boolean_numerical_domain<Dom>` (include/crab/domains/flat_boolean_domain.hpp, tree
-  with all the fix commits up to 26c913b) over an ARBITRARY lawful numerical base `N : BNDom V K`
+  with all the fix commits up to ef2ddd6) over an ARBITRARY lawful numerical base `N : BNDom V K`
   and an arbitrary lawful signature of constraints `K : CSig V`.
 
   State (`FBN N`): `m_product` (the `reduced_domain_product2` of the flat Boolean domain `FB V` and
@@ -97,14 +97,27 @@ def join (a b : FBN N) : FBN N :=
 /-- `operator||`, `widening_thresholds` (`w2` = the widening of the base) -/
 def widenWith (w2 : N.B → N.B → N.B) (a b : FBN N) : FBN N :=
   ⟨Prod2.widenWith FEnv.join w2 a.prod b.prod, a.lin.join b.lin, a.bools.join b.bools, a.unch.join b.unch⟩
-/-- `operator&` -/
+/-- `operator&` (after ef2ddd6): the maps are united (meet of the dual sets), the unchanged sets are
+    INTERSECTED (`m_unchanged_vars | other.m_unchanged_vars`, the join of the invariance domain) -/
 def meet (a b : FBN N) : FBN N :=
-  ⟨Prod2.meet a.prod b.prod, a.lin.meet b.lin, a.bools.meet b.bools, a.unch.meet b.unch⟩
-/-- `operator&=` -/
+  ⟨Prod2.meet a.prod b.prod, a.lin.meet b.lin, a.bools.meet b.bools, a.unch.join b.unch⟩
+/-- `operator&=` (after ef2ddd6) -/
 def meetEq (a b : FBN N) : FBN N :=
-  ⟨Prod2.meetEq a.prod b.prod, a.lin.meet b.lin, a.bools.meet b.bools, a.unch.meet b.unch⟩
-/-- `operator&&` -/
+  ⟨Prod2.meetEq a.prod b.prod, a.lin.meet b.lin, a.bools.meet b.bools, a.unch.join b.unch⟩
+/-- `operator&&` (after ef2ddd6) -/
 def narrow (a b : FBN N) : FBN N :=
+  ⟨Prod2.narrow a.prod b.prod, a.lin.meet b.lin, a.bools.meet b.bools, a.unch.join b.unch⟩
+
+/-- PINNED-TREE behaviour of `operator&` BEFORE repo commit ef2ddd6 (not the current code):
+    `m_unchanged_vars & other.m_unchanged_vars`, i.e. the UNION of the unchanged sets.  Unsound
+    (`C03.flatbool_meetOld_counterexample`); kept for the regression only. -/
+def meetOld (a b : FBN N) : FBN N :=
+  ⟨Prod2.meet a.prod b.prod, a.lin.meet b.lin, a.bools.meet b.bools, a.unch.meet b.unch⟩
+/-- `operator&=` before ef2ddd6 -/
+def meetEqOld (a b : FBN N) : FBN N :=
+  ⟨Prod2.meetEq a.prod b.prod, a.lin.meet b.lin, a.bools.meet b.bools, a.unch.meet b.unch⟩
+/-- `operator&&` before ef2ddd6 -/
+def narrowOld (a b : FBN N) : FBN N :=
   ⟨Prod2.narrow a.prod b.prod, a.lin.meet b.lin, a.bools.meet b.bools, a.unch.meet b.unch⟩
 
 /-! ### helpers of the reduction -/
@@ -383,8 +396,9 @@ def Inv (a : FBN N) (s : CSt V) : Prop :=
 
 def γ (a : FBN N) (s : CSt V) : Prop := a.prod.γ s ∧ Inv a s
 
-/-- decidable sufficient condition for the soundness of `&`, `&=`, `&&` (see
-    `C03.flatbool_meet_sound_counterexample`): both operands mark the same variables unchanged -/
+/-- both operands mark the same variables unchanged: then `&` is exactly the intersection
+    (`C04.flatbool_meet_iff`); in general `&` is sound but keeps only the common marks, so it can
+    be above an operand (`C04.flatbool_meet_lower_counterexample`) -/
 def sameUnch (a b : FBN N) : Bool := DSet.leq a.unch b.unch && DSet.leq b.unch a.unch
 end FBN
 
